@@ -284,3 +284,104 @@ func c15Matrix(t gen.Fataler, rec *stat.Recorder, cfg c15Config) {
 		}
 	}
 }
+
+// TestC15_Transient: fault sequences — the main (or personal) file is broken for the first
+// k attempts and repaired before attempt k+1 (the repair is done from the attempt observer,
+// so the harness owns the fault schedule). Whenever an attempt is observed to succeed, the
+// load must end with exactly that database, with no further attempts.
+func TestC15_Transient(t *testing.T) {
+	rec := stat.For("C15")
+	rec.Rule("fault sequences: main or personal file broken (malformed / wrong shape / binary / directory) for the first k attempts and repaired from the attempt observer before attempt k+1, under generated retry configurations. Oracle: if any attempt is observed to succeed, the result is the real database (main entries then notebook entries), err == nil, and no attempt follows the successful one; attempts <= max(1, configured); waits monotone and capped.")
+	rapid.Check(t, func(t *rapid.T) {
+		cfg := c15Config{
+			MaxAttempts:   rapid.IntRange(1, 5).Draw(t, "attempts"),
+			BaseDelayUs:   int64(rapid.SampledFrom([]int{0, 1, 50, 500}).Draw(t, "base-us")),
+			MaxDelayUs:    int64(rapid.SampledFrom([]int{0, 10, 100, 1000}).Draw(t, "cap-us")),
+			BackoffFactor: rapid.SampledFrom([]float64{1, 2, 4}).Draw(t, "factor"),
+		}
+		which := rapid.SampledFrom([]string{"main", "main", "personal"}).Draw(t, "which")
+		fault := rapid.SampledFrom([]string{"malformed", "wrong-shape", "binary", "directory"}).Draw(t, "fault")
+		k := rapid.IntRange(1, 4).Draw(t, "repair-after")
+		withPersonal := which == "personal" || rapid.Bool().Draw(t, "personal-present")
+		dir := mkdirWork("c15t-")
+		defer os.RemoveAll(dir)
+		mp := filepath.Join(dir, "commands.yml")
+		pp := filepath.Join(dir, "personal.yml")
+		if which == "main" {
+			c15Materialise(dir, "commands.yml", fault, c15MainCmds)
+			if withPersonal {
+				c15Materialise(dir, "personal.yml", "good", c15PersonalCmds)
+			}
+		} else {
+			c15Materialise(dir, "commands.yml", "good", c15MainCmds)
+			c15Materialise(dir, "personal.yml", fault, c15PersonalCmds)
+		}
+		broken, good := mp, c15MainCmds
+		if which == "personal" {
+			broken, good = pp, c15PersonalCmds
+		}
+		var out c15Outcome
+		successAt := 0
+		recovery.VerifSetObserver(&recovery.VerifObserver{
+			Attempt: func(n int, err error) {
+				out.Attempts++
+				if err == nil && successAt == 0 {
+					successAt = n
+				}
+				if err != nil {
+					out.LastErr = err.Error()
+					if n == k { // repair before the next attempt
+						os.RemoveAll(broken)
+						os.WriteFile(broken, gen.EmitYAML(good), 0o644)
+					}
+				}
+			},
+			Delay: func(n int, d time.Duration) { out.DelaysNs = append(out.DelaysNs, int64(d)) },
+		})
+		saved := os.Stdout
+		os.Stdout = devNull
+		dr := recovery.NewDatabaseRecovery(recovery.RetryConfig{MaxAttempts: cfg.MaxAttempts, BaseDelay: time.Duration(cfg.BaseDelayUs) * time.Microsecond,
+			MaxDelay: time.Duration(cfg.MaxDelayUs) * time.Microsecond, BackoffFactor: cfg.BackoffFactor})
+		db, err := dr.LoadDatabaseWithFallback(mp, pp)
+		os.Stdout = saved
+		recovery.VerifSetObserver(nil)
+		where := fmt.Sprintf("%s file %s until attempt %d, config=%+v, attempts seen=%d", which, fault, k, cfg, out.Attempts)
+		if db == nil || err != nil {
+			t.Fatalf("loading ended with db=nil:%v err=%v (%s)", db == nil, err, where)
+		}
+		if out.Attempts < 1 || out.Attempts > cfg.MaxAttempts {
+			t.Fatalf("%d attempts, configured maximum %d (%s)", out.Attempts, cfg.MaxAttempts, where)
+		}
+		if successAt > 0 {
+			want := append([]database.Command{}, c15MainCmds...)
+			if withPersonal {
+				want = append(want, c15PersonalCmds...)
+			}
+			if len(db.Commands) != len(want) {
+				t.Fatalf("attempt %d loaded the repaired files, yet the result holds %d commands instead of the %d real ones (fallback returned?) (%s)", successAt, len(db.Commands), len(want), where)
+			}
+			for i := range want {
+				if db.Commands[i].Command != want[i].Command {
+					t.Fatalf("attempt %d succeeded but entry %d is %q, want %q (%s)", successAt, i, db.Commands[i].Command, want[i].Command, where)
+				}
+			}
+			if out.Attempts != successAt {
+				t.Fatalf("attempt %d succeeded but %d attempts were made (%s)", successAt, out.Attempts, where)
+			}
+		} else if len(db.Commands) == 0 {
+			t.Fatalf("fallback database is empty (%s)", where)
+		}
+		prev := int64(-1)
+		for i, d := range out.DelaysNs {
+			if d < prev || d > cfg.MaxDelayUs*1000 {
+				t.Fatalf("wait %d = %v after %v, cap %v (%s)", i+1, time.Duration(d), time.Duration(prev), time.Duration(cfg.MaxDelayUs)*time.Microsecond, where)
+			}
+			prev = d
+		}
+		label := "transient-recovered"
+		if successAt == 0 {
+			label = "transient-budget-exhausted"
+		}
+		rec.Case(true, map[string]any{"transient": which, "fault": fault, "repaired_after_attempt": k, "config": cfg, "attempts": out.Attempts, "success_at": successAt}, "transient", label)
+	})
+}
